@@ -400,6 +400,9 @@ def c18_5(run):
                       eff['escrow'] == z3.Store(w0['escrow'], ek, z3.Select(w0['escrow'], ek) - amt), z3.Extract(511, 256, ek) == W.ident(p, B.fld(ex, p, packet, 'chan_on_a', 'ChannelId'))]
         else:
             claim += [eff['escrow'] == w0['escrow']]
+        # the escrow is released exactly when the refunded asset left through escrow on the packet's source channel (is_refund_source_zone = !is_transfer_source_zone)
+        leaves_through_escrow = z3.Not(zone(asset, W.ident(p, B.fld(ex, p, packet, 'port_on_a', 'PortId')), W.ident(p, B.fld(ex, p, packet, 'chan_on_a', 'ChannelId'))))
+        claim.append(z3.BoolVal(bool(ew)) == leaves_through_escrow)
         if deps:
             d = ex.deref_val(p, deps[0])
             claim += [z3.BoolVal(len(deps) == 1), z3.Select(w0['bridge_rollup?'], recipient), B.fld(ex, p, d, 'amount', 'u128') == amt, W.addr(p, B.fld(ex, p, d, 'bridge_address', 'Address')) == recipient,
